@@ -685,6 +685,29 @@ func (e *SpecEnv) call(n SCall) (Term, error) {
 			return Term{}, fmt.Errorf("arrOf needs a slice")
 		}
 		return Term{S: fmt.Sprintf("(s_arr %s)", t.S), Sort: "Int", T: types.Typ[types.Int]}, nil
+	case "framed": // framed(): the function's frame condition holds in the current state (for loop invariants)
+		if vc.spec == nil {
+			return Term{S: "true", Sort: "Bool"}, nil
+		}
+		vc.useRoot = true
+		parts := []string{"true"}
+		for _, fo := range vc.frameConds(e.heap, true) {
+			parts = append(parts, fo.cond)
+		}
+		return Term{S: "(and " + strings.Join(parts, " ") + ")", Sort: "Bool"}, nil
+	case "cast": // cast(x, "type"): x seen at another type with the same representation (named map <-> map, ...)
+		x, err := e.eval(n.Args[0])
+		if err != nil {
+			return Term{}, err
+		}
+		ty, err := e.lookupType(n.Args[1].(SStr).Val)
+		if err != nil {
+			return Term{}, err
+		}
+		if vc.sortOf(ty) != x.Sort {
+			return Term{}, fmt.Errorf("cast between different representations (%s vs %s)", x.Sort, vc.sortOf(ty))
+		}
+		return Term{S: x.S, Sort: x.Sort, T: ty}, nil
 	case "offOf": // offOf(s): index of s[0] within its backing array
 		t, err := e.eval(n.Args[0])
 		if err != nil {
@@ -728,7 +751,12 @@ func (e *SpecEnv) call(n SCall) (Term, error) {
 		}
 		tag := vc.typeTag(t.T)
 		fn := fmt.Sprintf("box_%d", tag)
-		vc.declare(fmt.Sprintf("(declare-fun %s (%s) Int) ; %s", fn, t.Sort, typeKey(t.T)), fn)
+		if !vc.dset[fn+"!ax"] {
+			vc.declare(fmt.Sprintf("(declare-fun %s (%s) Int) ; %s", fn, t.Sort, typeKey(t.T)), fn)
+			un := vc.unboxFn(t.Sort)
+			vc.dset[fn+"!ax"] = true
+			vc.global(fmt.Sprintf("(forall ((bx %s)) (! (and (> (%s bx) 0) (= (typeof (%s bx)) %d) (= (%s (%s bx)) bx)) :pattern ((%s bx))))", t.Sort, fn, fn, tag, un, fn, fn))
+		}
 		return Term{S: fmt.Sprintf("(%s %s)", fn, t.S), Sort: "Int", T: types.NewInterfaceType(nil, nil)}, nil
 	case "sameSlice": // same backing array and offset
 		a, err := e.eval(n.Args[0])
